@@ -1,15 +1,687 @@
-use serde_json::json;
-use smartcore::ensemble::random_forest_classifier::*;
-use smartcore::ensemble::random_forest_regressor::*;
+//! C06 — random forests: seed-reproducibility and faithful aggregation of the member trees.
+//!
+//! `gen-fits <out.ndjson>`      impl -> spec.  Generates training sets and parameter settings,
+//!     fits the real RandomForestClassifier / RandomForestRegressor (twice per seed, two seeds
+//!     per setting, interleaved, plus late re-fits of early keys) and records for every fit
+//!     the key (data id, parameters, seed) and a digest of everything observable, and for the
+//!     first fit of every key the complete observation: the bootstrap membership table
+//!     (`samples[]` of the serde dump), the predictions of every member tree (each element of
+//!     `trees[]` deserialised into the public DecisionTree* type, public `predict`), the
+//!     forest's `predict` on the training rows and on rows it has never seen, `predict_oob`.
+//! `replay-spec <in.ndjson> <out.ndjson>`   spec -> impl.  Every input line is the observation
+//!     record of a terminal state of the TLA+ model ForestAgg (member-tree predictions and
+//!     membership bits chosen by TLC).  A real forest with exactly these member trees and this
+//!     samples[] table is assembled through the public serde interface, the real `predict` /
+//!     `predict_oob` are run and observed exactly like a fitted forest.
+//!
+//! No property logic lives here.  Values are projected to integers (label values: exact;
+//! regression values: fixed point round(v*2^16), with a flag where the value is not a usable
+//! number); a digest is a hash of the serde dump and of the bit patterns of the predictions.
+//! Whether anything recorded here is right is decided by spec/tree/ForestTrace.tla under TLC.
+use rand::rngs::StdRng;
+use rand::seq::SliceRandom;
+use rand::Rng;
+use serde_json::{json, Value};
+use smartcore::ensemble::random_forest_classifier::{
+    RandomForestClassifier, RandomForestClassifierParameters,
+};
+use smartcore::ensemble::random_forest_regressor::{
+    RandomForestRegressor, RandomForestRegressorParameters,
+};
 use smartcore::linalg::naive::dense_matrix::DenseMatrix;
+use smartcore::tree::decision_tree_classifier::{DecisionTreeClassifier, SplitCriterion};
+use smartcore::tree::decision_tree_regressor::DecisionTreeRegressor;
+use vutil::*;
+
+const FX: f64 = 65536.0;
+
+// ---------------------------------------------------------------------------------------------
+// projections
+
+/// FNV-1a over bytes with two different offset bases: a 128-bit digest as a hex string.
+fn digest_of(parts: &[&[u8]]) -> String {
+    let mut h1: u64 = 0xcbf2_9ce4_8422_2325;
+    let mut h2: u64 = 0x6c62_272e_07bb_0142;
+    for p in parts {
+        for &b in p.iter() {
+            h1 = (h1 ^ b as u64).wrapping_mul(0x0000_0100_0000_01b3);
+            h2 = (h2 ^ (b as u64).rotate_left(7) ^ 0x5f).wrapping_mul(0x0000_0100_0000_01b3);
+        }
+        h1 = (h1 ^ 0xff).wrapping_mul(0x0000_0100_0000_01b3);
+        h2 = (h2 ^ 0xfe).wrapping_mul(0x0000_0100_0000_01b3);
+    }
+    format!("{:016x}{:016x}", h1, h2)
+}
+
+fn bits_of(v: &[f64]) -> Vec<u8> {
+    let mut out = Vec::with_capacity(v.len() * 8);
+    for x in v {
+        out.extend_from_slice(&x.to_bits().to_le_bytes());
+    }
+    out
+}
+
+/// classifier values are label values, integers by construction of the data
+fn proj_cls(v: f64) -> (bool, i64) {
+    match int_exact(v) {
+        Some(i) => (true, i),
+        None => (false, 0),
+    }
+}
+
+/// regression values in fixed point; not finite / out of the 32-bit budget -> flag
+fn proj_reg(v: f64) -> (bool, i64) {
+    if !v.is_finite() {
+        return (false, 0);
+    }
+    let q = (v * FX).round();
+    if q.abs() > 6.0e7 {
+        return (false, 0);
+    }
+    (true, q as i64)
+}
+
+fn proj_vec(kind: &str, v: &[f64]) -> (bool, Vec<i64>, Vec<bool>) {
+    let mut all = true;
+    let mut vals = Vec::with_capacity(v.len());
+    let mut fl = Vec::with_capacity(v.len());
+    for &x in v {
+        let (ok, q) = if kind == "cls" { proj_cls(x) } else { proj_reg(x) };
+        all &= ok;
+        vals.push(q);
+        fl.push(ok);
+    }
+    (all, vals, fl)
+}
+
+fn mat(rows: &[Vec<f64>]) -> DenseMatrix<f64> {
+    DenseMatrix::from_2d_vec(&rows.to_vec())
+}
+
+// ---------------------------------------------------------------------------------------------
+// observation of a forest (fitted or assembled)
+
+struct Observed {
+    obs: Value,
+    digest: String,
+}
+
+/// `dump` is the serde dump of the forest; `tree_pred(tree_json, x_all)` asks one member tree.
+fn observe(
+    kind: &str,
+    dump: &Value,
+    dump_text: &str,
+    n_trees_param: usize,
+    keep: bool,
+    y: &[f64],
+    n_train: usize,
+    n_all: usize,
+    tree_pred: &dyn Fn(&Value) -> Result<Vec<f64>, String>,
+    pred: Result<Vec<f64>, String>,
+    oob: Result<Result<Vec<f64>, String>, String>,
+) -> Observed {
+    let trees: Vec<Value> = match dump.get("trees").and_then(|t| t.as_array()) {
+        Some(a) => a.clone(),
+        None => {
+            eprintln!("forest dump has no trees[] array: the harness no longer matches the library");
+            std::process::exit(2);
+        }
+    };
+    let (has_mask, mask): (bool, Vec<Vec<bool>>) = match dump.get("samples") {
+        Some(Value::Array(a)) => (
+            true,
+            a.iter()
+                .map(|row| {
+                    row.as_array()
+                        .map(|r| r.iter().map(|b| b.as_bool().unwrap_or(false)).collect())
+                        .unwrap_or_default()
+                })
+                .collect(),
+        ),
+        _ => (false, vec![]),
+    };
+    let mut tp_ok = true;
+    let mut tp: Vec<Vec<i64>> = Vec::new();
+    let mut tp_bits: Vec<u8> = Vec::new();
+    for t in trees.iter() {
+        match tree_pred(t) {
+            Ok(v) => {
+                let (ok, q, _) = proj_vec(kind, &v);
+                tp_ok &= ok;
+                tp_bits.extend(bits_of(&v));
+                tp.push(q);
+            }
+            Err(_) => {
+                tp_ok = false;
+                tp.push(vec![]);
+            }
+        }
+    }
+    let (y_ok, yq, _) = proj_vec(kind, y);
+    if !y_ok {
+        eprintln!("generator produced a target outside the admitted range");
+        std::process::exit(2);
+    }
+    let (pred_ok, predq, pred_bits) = match &pred {
+        Ok(v) => {
+            let (ok, q, _) = proj_vec(kind, v);
+            (ok, q, bits_of(v))
+        }
+        Err(m) => (false, vec![], m.as_bytes().to_vec()),
+    };
+    let (oob_status, oobq, oob_fin, oob_bits) = match &oob {
+        Ok(Ok(v)) => {
+            let (_, q, f) = proj_vec(kind, v);
+            ("ok", q, f, bits_of(v))
+        }
+        Ok(Err(m)) => ("err", vec![], vec![], m.as_bytes().to_vec()),
+        Err(m) => ("panic", vec![], vec![], m.as_bytes().to_vec()),
+    };
+    let digest = digest_of(&[
+        dump_text.as_bytes(),
+        &tp_bits,
+        &pred_bits,
+        oob_status.as_bytes(),
+        &oob_bits,
+    ]);
+    let obs = json!({
+        "kind": kind, "nTrees": n_trees_param, "trees": trees.len(),
+        "nTrain": n_train, "nAll": n_all, "y": yq,
+        "keep": keep, "hasMask": has_mask, "mask": mask,
+        "tpOk": tp_ok, "treePred": tp,
+        "predOk": pred_ok, "pred": predq,
+        "oobStatus": oob_status, "oobFin": oob_fin, "oob": oobq,
+    });
+    Observed { obs, digest }
+}
+
+fn res_vec(r: Result<Result<Vec<f64>, smartcore::error::Failed>, String>) -> Result<Vec<f64>, String> {
+    match r {
+        Ok(Ok(v)) => Ok(v),
+        Ok(Err(e)) => Err(format!("err:{}", e)),
+        Err(m) => Err(format!("panic:{}", m)),
+    }
+}
+
+fn res_oob(
+    r: Result<Result<Vec<f64>, smartcore::error::Failed>, String>,
+) -> Result<Result<Vec<f64>, String>, String> {
+    match r {
+        Ok(Ok(v)) => Ok(Ok(v)),
+        Ok(Err(e)) => Ok(Err(format!("{}", e))),
+        Err(m) => Err(m),
+    }
+}
+
+fn observe_cls(
+    f: &RandomForestClassifier<f64>,
+    n_trees: usize,
+    keep: bool,
+    xtr: &[Vec<f64>],
+    xall: &[Vec<f64>],
+    y: &[f64],
+) -> Observed {
+    let dump = serde_json::to_value(f).expect("serde dump");
+    let text = serde_json::to_string(f).expect("serde dump");
+    let xa = mat(xall);
+    let xt = mat(xtr);
+    let tree_pred = |t: &Value| -> Result<Vec<f64>, String> {
+        let tree: DecisionTreeClassifier<f64> = match serde_json::from_value(t.clone()) {
+            Ok(t) => t,
+            Err(e) => {
+                eprintln!("member tree does not deserialise into DecisionTreeClassifier: {}", e);
+                std::process::exit(2);
+            }
+        };
+        res_vec(guard(|| tree.predict(&xa)))
+    };
+    let pred = res_vec(guard(|| f.predict(&xa)));
+    let oob = res_oob(guard(|| f.predict_oob(&xt)));
+    observe("cls", &dump, &text, n_trees, keep, y, xtr.len(), xall.len(), &tree_pred, pred, oob)
+}
+
+fn observe_reg(
+    f: &RandomForestRegressor<f64>,
+    n_trees: usize,
+    keep: bool,
+    xtr: &[Vec<f64>],
+    xall: &[Vec<f64>],
+    y: &[f64],
+) -> Observed {
+    let dump = serde_json::to_value(f).expect("serde dump");
+    let text = serde_json::to_string(f).expect("serde dump");
+    let xa = mat(xall);
+    let xt = mat(xtr);
+    let tree_pred = |t: &Value| -> Result<Vec<f64>, String> {
+        let tree: DecisionTreeRegressor<f64> = match serde_json::from_value(t.clone()) {
+            Ok(t) => t,
+            Err(e) => {
+                eprintln!("member tree does not deserialise into DecisionTreeRegressor: {}", e);
+                std::process::exit(2);
+            }
+        };
+        res_vec(guard(|| tree.predict(&xa)))
+    };
+    let pred = res_vec(guard(|| f.predict(&xa)));
+    let oob = res_oob(guard(|| f.predict_oob(&xt)));
+    observe("reg", &dump, &text, n_trees, keep, y, xtr.len(), xall.len(), &tree_pred, pred, oob)
+}
+
+// ---------------------------------------------------------------------------------------------
+// gen-fits
+
+#[derive(Clone)]
+struct Setting {
+    kind: &'static str,
+    n_trees: usize,
+    m: Option<usize>,
+    max_depth: Option<u16>,
+    msl: usize,
+    mss: usize,
+    crit: usize, // 0 gini, 1 entropy, 2 classification error
+    keep: bool,
+}
+
+struct Data {
+    id: usize,
+    x: Vec<Vec<f64>>,
+    xq: Vec<Vec<f64>>,
+    y: Vec<f64>,
+}
+
+fn crit_of(c: usize) -> SplitCriterion {
+    match c {
+        0 => SplitCriterion::Gini,
+        1 => SplitCriterion::Entropy,
+        _ => SplitCriterion::ClassificationError,
+    }
+}
+
+/// status, digest, observation of one real fit
+fn fit_once(d: &Data, s: &Setting, seed: u64) -> (&'static str, String, Value) {
+    let xm = mat(&d.x);
+    let mut xall = d.x.clone();
+    xall.extend(d.xq.iter().cloned());
+    if s.kind == "cls" {
+        let p = RandomForestClassifierParameters {
+            criterion: crit_of(s.crit),
+            max_depth: s.max_depth,
+            min_samples_leaf: s.msl,
+            min_samples_split: s.mss,
+            n_trees: s.n_trees as u16,
+            m: s.m,
+            keep_samples: s.keep,
+            seed,
+        };
+        match guard(|| RandomForestClassifier::fit(&xm, &d.y, p)) {
+            Ok(Ok(f)) => {
+                let o = observe_cls(&f, s.n_trees, s.keep, &d.x, &xall, &d.y);
+                ("ok", o.digest, o.obs)
+            }
+            Ok(Err(e)) => ("err", format!("err:{}", e), json!({})),
+            Err(m) => ("panic", format!("panic:{}", m), json!({})),
+        }
+    } else {
+        let p = RandomForestRegressorParameters {
+            max_depth: s.max_depth,
+            min_samples_leaf: s.msl,
+            min_samples_split: s.mss,
+            n_trees: s.n_trees,
+            m: s.m,
+            keep_samples: s.keep,
+            seed,
+        };
+        match guard(|| RandomForestRegressor::fit(&xm, &d.y, p)) {
+            Ok(Ok(f)) => {
+                let o = observe_reg(&f, s.n_trees, s.keep, &d.x, &xall, &d.y);
+                ("ok", o.digest, o.obs)
+            }
+            Ok(Err(e)) => ("err", format!("err:{}", e), json!({})),
+            Err(m) => ("panic", format!("panic:{}", m), json!({})),
+        }
+    }
+}
+
+fn base_key(d: &Data, s: &Setting) -> String {
+    format!(
+        "D{}:{}:T{}:m{}:d{}:l{}:s{}:c{}:k{}",
+        d.id,
+        s.kind,
+        s.n_trees,
+        s.m.map(|v| v as i64).unwrap_or(-1),
+        s.max_depth.map(|v| v as i64).unwrap_or(-1),
+        s.msl,
+        s.mss,
+        if s.kind == "cls" { s.crit as i64 } else { -1 },
+        s.keep as u8
+    )
+}
+
+fn ints(rows: &[Vec<f64>]) -> Vec<Vec<i64>> {
+    match intm(rows) {
+        Some(m) => m,
+        None => {
+            eprintln!("generator produced a non-integer feature");
+            std::process::exit(2);
+        }
+    }
+}
+
+fn emit_fit(out: &mut Out, run: i64, full: bool, d: &Data, s: &Setting, seed: u64) {
+    let base = base_key(d, s);
+    let key = format!("{}#{}", base, seed);
+    let (status, digest, obs) = fit_once(d, s, seed);
+    if full {
+        let p = d.x[0].len();
+        out.emit(json!({
+            "run": run, "ev": "ForestFit", "key": key, "base": base, "digest": digest, "status": status,
+            "in": {"kind": s.kind, "n": d.x.len(), "p": p, "X": ints(&d.x),
+                   "nTrees": s.n_trees, "m": s.m.map(|v| v as i64).unwrap_or(-1),
+                   "maxDepth": s.max_depth.map(|v| v as i64).unwrap_or(-1),
+                   "msl": s.msl, "mss": s.mss, "crit": s.crit, "keep": s.keep,
+                   "seed": seed.to_string()},
+            "obs": obs,
+        }));
+    } else {
+        out.emit(json!({"run": run, "ev": "ForestRefit", "key": key, "base": base,
+                        "digest": digest, "status": status}));
+    }
+}
+
+fn gen_data(r: &mut StdRng, id: usize, kind: &'static str, n: usize, p: usize, distinct: bool) -> Data {
+    // features: small integers with many repeats, or pairwise distinct within each column
+    let mut x = vec![vec![0.0f64; p]; n];
+    for j in 0..p {
+        if distinct {
+            let mut perm: Vec<usize> = (0..n).collect();
+            perm.shuffle(r);
+            let step = r.gen_range(1..=3) as f64;
+            let off = r.gen_range(-20..=20) as f64;
+            for i in 0..n {
+                x[i][j] = perm[i] as f64 * step + off;
+            }
+        } else if p > 1 && r.gen_bool(0.1) {
+            let c = r.gen_range(-3..=3) as f64;
+            for row in x.iter_mut() {
+                row[j] = c;
+            }
+        } else {
+            let vmax = r.gen_range(1..=6);
+            for row in x.iter_mut() {
+                row[j] = r.gen_range(0..=vmax) as f64;
+            }
+        }
+    }
+    // query rows: perturbed training rows and rows outside the training range
+    let nq = r.gen_range(1..=usize::min(8, n));
+    let mut xq = Vec::new();
+    for _ in 0..nq {
+        let src = r.gen_range(0..n);
+        let mut row = x[src].clone();
+        for v in row.iter_mut() {
+            match r.gen_range(0..4) {
+                0 => *v += 1.0,
+                1 => *v -= 1.0,
+                2 => *v = r.gen_range(-40..=400) as f64,
+                _ => {}
+            }
+        }
+        xq.push(row);
+    }
+    let signal: Vec<f64> = (0..n)
+        .map(|i| x[i][0] + if p > 1 { x[i][p - 1] } else { 0.0 })
+        .collect();
+    let mut y = vec![0.0f64; n];
+    if kind == "cls" {
+        let k = r.gen_range(2..=usize::min(4, n));
+        // arbitrary label values: distinct integers, non-contiguous, possibly negative
+        let mut pool: Vec<i64> = (-9..=20).collect();
+        pool.shuffle(r);
+        let labels: Vec<f64> = pool[..k].iter().map(|&v| v as f64).collect();
+        let mut order: Vec<usize> = (0..n).collect();
+        order.sort_by(|&a, &b| signal[a].partial_cmp(&signal[b]).unwrap());
+        let rare = r.gen_bool(0.5);
+        for (pos, &i) in order.iter().enumerate() {
+            let mut c = if rare {
+                // the last class(es) get a single row each
+                if pos + (k - 1) >= n { k - 1 - (n - 1 - pos) } else { 0 }
+            } else {
+                pos * k / n
+            };
+            if r.gen_bool(0.15) {
+                c = r.gen_range(0..k);
+            }
+            y[i] = labels[c];
+        }
+        // every class must be present: plant one row per class
+        let mut rows: Vec<usize> = (0..n).collect();
+        rows.shuffle(r);
+        for c in 0..k {
+            y[rows[c]] = labels[c];
+        }
+    } else {
+        let eighth = r.gen_bool(0.5);
+        let smax = signal.iter().fold(1.0f64, |a, &b| a.max(b.abs()));
+        for i in 0..n {
+            let noise = r.gen_range(-6..=6) as f64;
+            let mut v = (signal[i] / smax * 90.0).round() + noise;
+            if eighth {
+                v += r.gen_range(0..8) as f64 / 8.0;
+            }
+            y[i] = v.max(-200.0).min(200.0);
+        }
+        if r.gen_bool(0.1) {
+            let c = y[0];
+            for v in y.iter_mut() {
+                *v = c;
+            }
+        }
+    }
+    Data { id, x, xq, y }
+}
+
+fn gen_setting(r: &mut StdRng, kind: &'static str, p: usize, unlimited: bool, big: bool) -> Setting {
+    let n_trees = if big {
+        r.gen_range(8..=30)
+    } else {
+        match r.gen_range(0..10) {
+            0 => 1,
+            1 | 2 => 2,
+            3 => 3,
+            4 => 4,
+            _ => r.gen_range(1..=12),
+        }
+    };
+    let m = if r.gen_bool(0.4) { None } else { Some(r.gen_range(1..=p)) };
+    let (max_depth, msl, mss) = if unlimited {
+        (None, 1, r.gen_range(0..=1))
+    } else {
+        (
+            if r.gen_bool(0.5) { None } else { Some(r.gen_range(1..=8) as u16) },
+            r.gen_range(1..=5),
+            r.gen_range(0..=8),
+        )
+    };
+    Setting {
+        kind,
+        n_trees,
+        m,
+        max_depth,
+        msl,
+        mss,
+        crit: r.gen_range(0..3),
+        keep: r.gen_bool(0.75),
+    }
+}
+
+fn pick_seed(r: &mut StdRng) -> u64 {
+    match r.gen_range(0..12) {
+        0 => 0,
+        1 => 1,
+        2 => u64::MAX,
+        3 => r.gen_range(0..100),
+        _ => r.gen::<u64>(),
+    }
+}
+
+fn gen_fits(path: &str) {
+    let mut out = Out::create(path);
+    let mut r = rng(6);
+    let th = thorough();
+    let cases = if th { 1500 } else { 230 };
+    let mut run = 0i64;
+    let mut early: Vec<(Data, Setting, u64)> = Vec::new();
+    for c in 0..cases {
+        run += 1;
+        let kind: &'static str = if c % 2 == 0 { "cls" } else { "reg" };
+        let distinct = r.gen_bool(0.45);
+        let unlimited = distinct && r.gen_bool(0.6);
+        let big = c % 10 == 9;
+        let n = if big {
+            r.gen_range(60..=120)
+        } else if r.gen_bool(0.5) {
+            r.gen_range(4..=12)
+        } else {
+            r.gen_range(8..=45)
+        };
+        let p = r.gen_range(1..=6);
+        let d = gen_data(&mut r, c + 1, kind, n, p, distinct);
+        let many_trees = big && r.gen_bool(0.5);
+        let s = gen_setting(&mut r, kind, p, unlimited, many_trees);
+        let s1 = pick_seed(&mut r);
+        let mut s2 = pick_seed(&mut r);
+        if s2 == s1 {
+            s2 = s1.wrapping_add(1);
+        }
+        // interleaved: A B A B  (A, B = the two seeds); the second fit of a key only records
+        // its digest
+        emit_fit(&mut out, run, true, &d, &s, s1);
+        emit_fit(&mut out, run, true, &d, &s, s2);
+        emit_fit(&mut out, run, false, &d, &s, s1);
+        emit_fit(&mut out, run, false, &d, &s, s2);
+        if early.len() < 8 {
+            early.push((d, s, s1));
+        }
+    }
+    // late re-fits of the earliest keys: the whole session lies in between
+    run += 1;
+    for (d, s, seed) in early.iter() {
+        emit_fit(&mut out, run, false, d, s, *seed);
+    }
+    let n = out.finish();
+    println!("events={} runs={}", n, run);
+}
+
+// ---------------------------------------------------------------------------------------------
+// replay-spec
+
+fn arr_i64(v: &Value) -> Vec<i64> {
+    v.as_array().map(|a| a.iter().map(|x| x.as_i64().unwrap_or(0)).collect()).unwrap_or_default()
+}
+
+/// A decision chain over the row-id feature: row r (0-based, feature 0 = r) reaches a leaf
+/// whose output is outs[r].
+fn chain_nodes(outs: &[Value]) -> Vec<Value> {
+    let n = outs.len();
+    let mut nodes = Vec::new();
+    let leaf = |idx: usize, out: &Value| json!({"_index": idx, "output": out, "split_feature": 0,
+        "split_value": null, "split_score": null, "true_child": null, "false_child": null});
+    for r in 0..n {
+        if r + 1 < n {
+            nodes.push(json!({"_index": 2 * r, "output": outs[r], "split_feature": 0,
+                "split_value": r as f64 + 0.5, "split_score": 0.0,
+                "true_child": 2 * r + 1, "false_child": 2 * r + 2}));
+            nodes.push(leaf(2 * r + 1, &outs[r]));
+        } else {
+            nodes.push(leaf(2 * r, &outs[r]));
+        }
+    }
+    nodes
+}
+
+fn replay_spec(inp: &str, outp: &str) {
+    let cases = read_ndjson(inp);
+    let mut out = Out::create(outp);
+    let mut run = 0i64;
+    for c in cases.iter() {
+        run += 1;
+        let kind = c["kind"].as_str().unwrap_or("");
+        let n = c["nTrain"].as_u64().unwrap_or(0) as usize;
+        let t_n = c["nTrees"].as_u64().unwrap_or(0) as usize;
+        let keep = c["keep"].as_bool().unwrap_or(false);
+        let yv = arr_i64(&c["y"]);
+        let x: Vec<Vec<f64>> = (0..n).map(|i| vec![i as f64]).collect();
+        let samples: Value = if keep { c["mask"].clone() } else { Value::Null };
+        let expect = json!({"pred": c["pred"], "oobStatus": c["oobStatus"],
+                            "oobFin": c["oobFin"], "oob": c["oob"]});
+        let tp: Vec<Vec<i64>> = c["treePred"].as_array().map(|a| a.iter().map(arr_i64).collect()).unwrap_or_default();
+        let (status, obs): (&str, Value) = if kind == "cls" {
+            let y: Vec<f64> = yv.iter().map(|&v| v as f64).collect();
+            let mut classes: Vec<i64> = yv.clone();
+            classes.sort();
+            classes.dedup();
+            let classes_f: Vec<f64> = classes.iter().map(|&v| v as f64).collect();
+            let trees: Vec<Value> = tp
+                .iter()
+                .map(|row| {
+                    let outs: Vec<Value> = row
+                        .iter()
+                        .map(|v| json!(classes.iter().position(|c| c == v).expect("label of the model")))
+                        .collect();
+                    json!({"nodes": chain_nodes(&outs),
+                           "parameters": {"criterion": "Gini", "max_depth": null,
+                                          "min_samples_leaf": 1, "min_samples_split": 2},
+                           "num_classes": classes.len(), "classes": classes_f, "depth": n})
+                })
+                .collect();
+            let fj = json!({"_parameters": {"criterion": "Gini", "max_depth": null, "min_samples_leaf": 1,
+                    "min_samples_split": 2, "n_trees": t_n, "m": null, "keep_samples": keep, "seed": 0},
+                "trees": trees, "classes": classes_f, "samples": samples});
+            match serde_json::from_value::<RandomForestClassifier<f64>>(fj) {
+                Ok(f) => ("ok", observe_cls(&f, t_n, keep, &x, &x, &y).obs),
+                Err(e) => {
+                    eprintln!("cannot assemble a classifier forest: {}", e);
+                    std::process::exit(2);
+                }
+            }
+        } else {
+            let y: Vec<f64> = yv.iter().map(|&v| v as f64 / FX).collect();
+            let trees: Vec<Value> = tp
+                .iter()
+                .map(|row| {
+                    let outs: Vec<Value> = row.iter().map(|&v| json!(v as f64 / FX)).collect();
+                    json!({"nodes": chain_nodes(&outs),
+                           "parameters": {"max_depth": null, "min_samples_leaf": 1, "min_samples_split": 2},
+                           "depth": n})
+                })
+                .collect();
+            let fj = json!({"_parameters": {"max_depth": null, "min_samples_leaf": 1,
+                    "min_samples_split": 2, "n_trees": t_n, "m": null, "keep_samples": keep, "seed": 0},
+                "trees": trees, "samples": samples});
+            match serde_json::from_value::<RandomForestRegressor<f64>>(fj) {
+                Ok(f) => ("ok", observe_reg(&f, t_n, keep, &x, &x, &y).obs),
+                Err(e) => {
+                    eprintln!("cannot assemble a regressor forest: {}", e);
+                    std::process::exit(2);
+                }
+            }
+        };
+        out.emit(json!({"run": run, "ev": "ForestObs", "status": status, "obs": obs, "expect": expect}));
+    }
+    let n = out.finish();
+    println!("events={} runs={}", n, run);
+}
+
 fn main() {
-    let x = DenseMatrix::from_2d_vec(&vec![vec![0.0, 1.0], vec![1.0, 0.0], vec![2.0, 5.0], vec![3.0, 2.0]]);
-    let y = vec![-3.0, 4.0, 4.0, -3.0];
-    let p = RandomForestClassifierParameters::default().with_n_trees(2).with_keep_samples(true).with_seed(5);
-    let f = RandomForestClassifier::fit(&x, &y, p).unwrap();
-    println!("{}", serde_json::to_string(&f).unwrap());
-    let p = RandomForestRegressorParameters::default().with_n_trees(2).with_keep_samples(true).with_seed(5);
-    let f = RandomForestRegressor::fit(&x, &y, p).unwrap();
-    println!("{}", serde_json::to_string(&f).unwrap());
-    let _ = json!({});
+    let args: Vec<String> = std::env::args().skip(1).collect();
+    let args = &args[..];
+    silence_panics();
+    match arg(args, 0) {
+        "gen-fits" => gen_fits(arg(args, 1)),
+        "replay-spec" => replay_spec(arg(args, 1), arg(args, 2)),
+        m => {
+            eprintln!("unknown c06 mode {}", m);
+            std::process::exit(2);
+        }
+    }
 }
